@@ -66,6 +66,7 @@ type Exec struct {
 	inlined       map[string]bool
 	forceContract map[string]bool
 	notes         map[string]bool
+	symObjs       map[int]bool // objects standing for the pointees of symbolic (input or havocked) pointers
 	frameCounter  int
 	cronExprs     map[string]Term     // schedule id -> the expression it was parsed from
 	dynTests      map[string][]string // opaque interface value id -> concrete types tested on it (mutually exclusive)
